@@ -5,7 +5,6 @@ set -u
 cd "$(dirname "$0")"
 export CARGO_NET_OFFLINE=true
 mkdir -p .cache evidence replay logs
-python3-vt tools/mkmanifest.py >/dev/null 2>&1 || python3 tools/mkmanifest.py >/dev/null 2>&1 || true
 ./check SELFTEST --tier quick
 rc=$?
 if [ $rc -ne 0 ]; then echo "setup: self-test failed (rc=$rc)"; exit 1; fi
